@@ -6,7 +6,7 @@ From Coq Require String.
 Import String.StringSyntax.
 Import ListNotations.
 From OV Require Import Base.Bytes Base.Utf8 Base.Cases Base.Tree Model.Csv Model.Fixed Model.Delim
-  Proofs.DelimUtf8 Proofs.DelimCsv Proofs.DelimFixed Proofs.DelimReaders Proofs.DelimLine Proofs.DelimCsv2 Proofs.DelimJump Proofs.DelimValid Proofs.DelimFixed2.
+  Proofs.DelimUtf8 Proofs.DelimCsv Proofs.DelimFixed Proofs.DelimReaders Proofs.DelimLine Proofs.DelimCsv2 Proofs.DelimJump Proofs.DelimValid Proofs.DelimFixed2 Proofs.DelimFixed1.
 Local Open Scope string_scope.
 Local Open Scope list_scope.
 
@@ -263,6 +263,63 @@ Theorem fixed2_no_poison : forall re_match input ops,
   Forall (fun o => o <> Some OPoison /\ forall k, o <> Some (OPanic k))
          (rr_run re_match (f2_init input) ops).
 Proof. exact fixed2_no_poison_proof. Qed.
+
+(* ---- old fixed-length reader ------------------------------------------------------------------------
+   lines_from inp ls rest: ls are the next non-empty lines of inp (empty lines skipped), rest is
+   what follows.  kids_spec cols ls: line by line, every still-missing column whose FIRST matching
+   line (line_pattern; no pattern = any line) it is, as the rune slice of that line - so a column
+   holds the text of the first line of the envelope that its pattern selects, a column no line
+   selects is absent.  For every declaration, every input, every regexp behaviour: *)
+Theorem fixed1_rows_read : forall re_match e tl inp ls rest k,
+  e_hf e = None -> lines_from inp ls rest -> length ls = e_rows e ->
+  f1_read re_match (S k) (e :: tl) (mkF1 inp 0)
+  = (ONode (T ElementNode (e_name e) FNone (kids_spec re_match (undone (e_cols e)) ls)), mkF1 rest 0).
+Proof. exact fixed1_rows_read_proof. Qed.
+
+(* by_header_footer: the envelope is the first one at or after the reader's envelope index whose
+   header matches the line (fixed1_find_env), its lines run to the first line matching the footer
+   (hf_lines); a not_target envelope is consumed and the Read goes on *)
+Theorem fixed1_hf_read : forall re_match envs e0 tl s l0 r0 e h footer ls rest k,
+  envs = e0 :: tl -> e_hf e0 <> None ->
+  f1_readline (S (length (g_in s))) (g_in s) = Some (Some l0, r0) ->
+  let i := find_env re_match (S (length envs)) envs (g_env s) l0 in
+  nth_error envs i = Some e -> e_hf e = Some (h, footer) ->
+  hf_lines re_match footer l0 r0 ls rest ->
+  f1_read re_match (S k) envs s =
+  if e_not_target e then f1_read re_match k envs (mkF1 rest i)
+  else (ONode (T ElementNode (e_name e) FNone (kids_spec re_match (undone (e_cols e)) (l0 :: ls))), mkF1 rest i).
+Proof. exact fixed1_hf_read_proof. Qed.
+
+Theorem fixed1_find_env : forall re_match envs line fuel i, length envs - i < fuel ->
+  (forall e, In e envs -> e_hf e <> None) ->
+  let j := find_env re_match fuel envs i line in
+  i <= j /\
+  (forall j' e h f, i <= j' < j -> nth_error envs j' = Some e -> e_hf e = Some (h, f) -> re_match h line = false) /\
+  match nth_error envs j with
+  | Some e => exists h f, e_hf e = Some (h, f) /\ re_match h line = true
+  | None => True
+  end.
+Proof. exact find_env_spec. Qed.
+
+Theorem fixed1_hf_unmatched : forall re_match envs e0 tl s l0 r0 k,
+  envs = e0 :: tl -> e_hf e0 <> None ->
+  f1_readline (S (length (g_in s))) (g_in s) = Some (Some l0, r0) ->
+  nth_error envs (find_env re_match (S (length envs)) envs (g_env s) l0) = None ->
+  fst (f1_read re_match (S k) envs s) = OEOF.
+Proof. exact fixed1_hf_unmatched_proof. Qed.
+
+Example fixed1_nonvacuous :
+  (* by_rows 2; column a = runes [1,3) of the line starting with "T2", column b = runes [2,4) of any line *)
+  let e := mkEnv1 (hx "31") None 2 false
+             [mkFCol (hx "61") 1 2 None (Some (PPrefix (hx "5432"))); mkFCol (hx "62") 2 2 None None] in
+  lines_from (hx "0a543178790a5432c3a97a0a71") [hx "54317879"; hx "5432c3a97a"] (hx "71")
+  /\ f1_read pat_match 1 [e] (mkF1 (hx "0a543178790a5432c3a97a0a71") 0)
+     = (ONode (T ElementNode (hx "31") FNone [text_elem (hx "62") (hx "3178"); text_elem (hx "61") (hx "5432")]),
+        mkF1 (hx "71") 0).
+Proof.
+  split; [|vm_compute; reflexivity].
+  eapply lf_cons; [vm_compute; reflexivity|]. eapply lf_cons; [vm_compute; reflexivity|]. constructor.
+Qed.
 
 (* fixedlength2 column fidelity.  For every input, every regexp behaviour and every sequence of
    RecReader calls from a fresh reader: the non-empty lines ByteReadLine returns form a stream
